@@ -197,9 +197,20 @@ def run(ctx):
         fn = ex
         recs = fn.blocks_calling(lambda n: n.endswith(RTI + 'record_fault'))
         wbs = set(fn.blocks_calling(lambda n: n == WRITE_OUT))
+        # a fault record sits on the error edge of some fallible call; what follows it is the error world of that
+        # call: its success edges are not followed (the cycle CFG is path-insensitive otherwise)
+        tested = []
+        for cb, nm, t in fn.calls(lambda n: n in fx.fns):
+            p_, n_, _ = call_result_edges(fn, cb)
+            if p_ and n_:
+                tested.append((cb, p_, n_))
         for b in recs:
             r3.saw()
-            if wbs & fn.reach_after(b):
+            cut = set()
+            for cb, p_, n_ in tested:
+                if guarded(fn, b, n_):
+                    cut |= p_
+            if wbs & fn.reach_after(b, removed_edges=cut):
                 r3.bad('fault-then-publish', 'write_cycle_outputs is reachable after record_fault', loc=fn.loc(b))
             else:
                 r3.ok('fault-then-publish', loc=fn.loc(b))
